@@ -8,6 +8,7 @@ from props.common import replay_record
 def run(tier, seed):
     out = Outcome("C01", tier, seed)
     vfsrun.bfs(out, "link1", ["--links", "1", "--maxstates", "1500"], groups_per_chunk=100)
+    vfsrun.hist(out, "rand", "rand", ["--n", "24", "--len", "150", "--seed", str(seed)])
     out.finish(dict(rule="reachability fix-point of the real Memfs over names {a,b} x depth 2 x data {e,x}; every state x every call of the alphabet judged by TLC"))
 
 
